@@ -58,6 +58,7 @@ def cfs(vals, cv):
 
 def main(run):
     from deap import base
+    import numpy
     run.rule = ("exhaustive: all weight-sign vectors x all value tuples over {0,1,2} for lengths 1..2 (quick) / 1..3 (thorough); "
                 "random: lengths 1..5, tie-heavy small integer grids and dyadic scalings; every case compares the six operators, "
                 "dominates under slices, value round-trip, set/del histories, clones, and constrained-fitness combinations. "
@@ -88,14 +89,22 @@ def main(run):
 
     def mk(w, vals, cv=None, constrained=False, scale=(1, 1)):
         C = fitcls(w, constrained, scale)
-        route = rng.randint(0, 2)
+        route = rng.randint(0, 4)
         fv = None if vals is None else tuple(float(v) / scale[0] for v in vals)
         if fv is not None and route == 0:
             # constructor route: Fitness(values) / ConstrainedFitness(values, constraint_violation)
             return C(fv, cv) if constrained else C(fv)
+        if fv is not None and route == 3:
+            # constructor route with a numpy array (what an evaluation function written with numpy returns); a one-element
+            # array holding 0 is falsy, longer arrays have no truth value
+            arr = numpy.array(fv, dtype=float)
+            return C(arr, cv) if constrained else C(arr)
         f = C(constraint_violation=cv) if constrained else C()
         if fv is not None:
-            f.values = list(fv) if route == 1 else fv      # a list is accepted as well as a tuple
+            if route == 4:
+                f.values = numpy.array(fv, dtype=float)
+            else:
+                f.values = list(fv) if route == 1 else fv      # a list is accepted as well as a tuple
         return f
 
     def wv_int(f, scale):
@@ -223,9 +232,49 @@ def main(run):
         f = mk(w, v)
         got = list(f.values)
         case = {"kind": "roundtrip", "weights": w, "values": v, "observed": got}
-        if got != [float(x) for x in v] or any(type(x) is not float for x in got):
-            run.oracle_violation("values not read back unchanged", case, observed=got)
-        add("CRound %s %s %s" % (czl(w), czl(v), czl([int(x) for x in got])), case)
+        if got != [float(x) for x in v] or any(not isinstance(x, float) for x in got) or not f.valid:
+            run.oracle_violation("values not read back unchanged", case, observed=[repr(x) for x in got])
+        else:
+            add("CRound %s %s %s" % (czl(w), czl(v), czl([int(x) for x in got])), case)
+
+    # ---- state kept on the CLASS: a type derived from a type that was already used (other weights), and weights
+    # re-assigned on a type after it was used; every read goes through fresh and through previously read objects
+    for _ in range(run.scale(80, 800)):
+        n = rng.randint(1, 3)
+
+        def rw():
+            return tuple(float(rng.choice([1, -1]) * rng.choice([1, 1, 1, 2, 4])) for _ in range(n))
+        w1, w2, w3 = rw(), rw(), rw()
+        A = type("FA%d" % rng.randrange(10 ** 9), (base.Fitness,), {"weights": w1})
+        history = []
+
+        def use(cls, w, label):
+            v = [rng.randint(-8, 8) for _ in range(n)]
+            f = cls()
+            f.values = tuple(float(x) for x in v)
+            got = [list(f.values), list(f.values)]                   # read twice
+            wv = list(f.wvalues)
+            case = {"kind": "class-state", "step": label, "weights": list(w), "values": v, "history": list(history), "observed": got}
+            history.append(label)
+            if got[0] != [float(x) for x in v] or got[1] != got[0]:
+                run.oracle_violation("values not read back unchanged (%s)" % label, case, observed=got)
+            elif wv != [float(x) * y for x, y in zip(v, w)]:
+                run.oracle_violation("weighted values are not value*weight (%s)" % label, case, observed=wv)
+            else:
+                add("CRound %s %s %s" % (czl([int(x) for x in w]), czl(v), czl([int(x) for x in got[0]])), case)
+            g = cls()
+            g.values = tuple(float(x) for x in [rng.randint(-8, 8) for _ in range(n)])
+            key = lambda h: tuple(a * b for a, b in zip(h.values, w))        # noqa: E731
+            if (f < g) != (key(f) < key(g)) or (f == g) != (key(f) == key(g)) or (f > g) != (key(f) > key(g)):
+                run.oracle_violation("comparison operators differ from lexicographic comparison of weighted values (%s)" % label, case,
+                                     observed=[list(f.values), list(g.values)])
+        use(A, w1, "base type, first use")
+        B = type("FB%d" % rng.randrange(10 ** 9), (A,), {"weights": w2})
+        use(B, w2, "type derived from a used type, other weights")
+        use(A, w1, "base type again")
+        A.weights = w3
+        use(A, w3, "base type after its weights were re-assigned")
+        use(B, w2, "derived type after the base type's weights were re-assigned")
 
     # ---- histories ----
     for _ in range(run.scale(150, 1500)):
